@@ -13,7 +13,7 @@ real `_hop` values) and must coincide; a dynamic monitor reports any NoPC task t
 
 This module also hosts the infrastructure shared with c09.py and c35.py.
 """
-import os, sys, io, json, random, asyncio, contextlib, logging, collections, subprocess, time
+import os, sys, io, json, random, asyncio, contextlib, logging, collections, subprocess, time, struct
 
 from lib.core import zlit, natlit, COQ, COQFLAGS, PYNP, VERIF, REPO, BuildLock, sh
 
@@ -744,6 +744,132 @@ def canon_ev(v):
     return tuple(v) if isinstance(v, tuple) else (v,)
 
 
+class CoalescePreamble:
+    """Holds the client->server link until the client has written its preamble (pid + PRSS keys) AND at least one complete
+    labelled message behind it, then hands the server everything queued in ONE data_received call (cut=None), or a
+    chunk ending `cut` bytes into the first message followed by the rest.  Every other link is FIFO."""
+
+    def __init__(self, link, pre_len, cut=None, patience=60):
+        self.link, self.pre, self.cut, self.patience = link, pre_len, cut, patience
+        self.done, self.fired, self.wait = False, False, 0
+
+    def deliver(self, net):
+        n = 0
+        for l in list(net.order):
+            if l == self.link and not self.done:
+                continue
+            while net.queues[l]:
+                n += net.deliver(l)
+        if not self.done:
+            q = net.queues[self.link]
+            data = b''.join(q)
+            have = False
+            if len(data) >= self.pre + 12:
+                size = struct.unpack_from('<qI', data, self.pre)[1]
+                have = len(data) >= self.pre + 12 + size
+            if not have and n == 0:
+                self.wait += 1
+            if have or self.wait > self.patience:
+                self.done, self.fired = True, have
+                q.clear()
+                net.order = collections.deque(l for l in net.order if l != self.link)
+                k = len(data) if (self.cut is None or not have) else self.pre + self.cut
+                for part in (data[:k], data[k:]):
+                    if part:
+                        q.append(part)
+                        net.order.append(self.link)
+                if q:
+                    n += net.deliver(self.link)
+        return n
+
+
+def coalesced_handshake_stream(ctx, stats, full=True):
+    """start() and a request/response program in ONE run: party i (client) sends a single labelled message to a
+    higher-numbered party j right after connecting and then waits for j's answer; the link i->j delivers preamble and
+    first message coalesced (or cut 0/1/2 bytes into the message).  All parties must complete with the right values, every
+    sent label must be received exactly once, buffers and byte buffers must end empty, shutdown must complete."""
+    from lib.sim import Sim, Fifo
+    rng = ctx.rng
+
+    def mk(shape, i, j):
+        async def prog(mpc, mods, pid):
+            await mpc.start()
+            if shape == 'transfer':
+                x = await mpc.transfer('req' if pid == i else None, senders=[i], receivers=[j])
+                y = await mpc.transfer('resp' if pid == j else None, senders=[j], receivers=[i])
+                return [x, y]
+            secint = mpc.SecInt(L)
+            a = mpc.input(secint(41 if pid == i else 0), senders=i)     # i = lowest party: shares go out to everybody
+            r = await mpc.output(a + 1, receivers=i)                     # ... and come back to it only
+            return None if r is None else int(r)
+        return prog
+
+    def want(shape, i, j, pid):
+        if shape == 'transfer':
+            return [['req'] if pid == j else [], ['resp'] if pid == i else []]
+        return 42 if pid == i else None
+
+    cases = []
+    for (m, t) in [(2, 0), (3, 1), (4, 1)]:
+        pairs = [(a, b) for a in range(m) for b in range(a + 1, m)]
+        if m == 4 and ctx.tier != 'thorough':
+            pairs = [(0, 1), (0, 3)] + rng.sample([(0, 2), (1, 2), (1, 3), (2, 3)], 1)
+        if not full:
+            pairs = pairs[-1:]
+        for (i, j) in pairs:
+            for no_prss in ((False, True) if full else (False,)):
+                cases.append((m, t, 'transfer', i, j, no_prss, None))
+                if i == 0 and full:
+                    cases.append((m, t, 'io', i, j, no_prss, None))
+        if full:
+            i, j = pairs[0]
+            for cut in (0, 1, 2):
+                cases.append((m, t, 'transfer', i, j, False, cut))
+    for (m, t, shape, i, j, no_prss, cut) in cases:
+        key = {'m': m, 't': t, 'shape': shape, 'client': i, 'server': j, 'no_prss': no_prss,
+               'chunk': 'preamble+everything' if cut is None else 'preamble+%d bytes' % cut}
+        pre = 2 if no_prss else handshake_len(m, t, i, j)
+        pol = CoalescePreamble((i, j), pre, cut)
+        with quiet():
+            sim = Sim(m, t, no_prss=no_prss, seed=ctx.seed + 9)
+        try:
+            with quiet():
+                res = sim.run(mk(shape, i, j), pol, idle_limit=300)
+            protos = dict(sim.net.protos)
+            stats['coalesced_handshakes'] += 1
+            stats['coalesced_fired'] += 1 if pol.fired else 0
+            ctx.case(key, nontrivial=pol.fired, kind='(%d,%d) coalesced handshake%s' % (m, t, ' no-prss' if no_prss else ''))
+            exp = [want(shape, i, j, pid) for pid in range(m)]
+            if is_bad(res) or res != exp:
+                left = {'%d<-%d' % k: {'buffers': len(p.buffers), 'unparsed_bytes': len(p.bytes)} for k, p in protos.items()
+                        if p.buffers or len(p.bytes)}
+                ctx.violation('request/response right after start did not complete when the connection preamble arrived '
+                              'coalesced with the first message', {'case': key, 'results': res, 'want': exp, 'left': left})
+                continue
+            with quiet():
+                sd = sim.shutdown(Fifo())
+            if any(r is not True for r in sd):
+                ctx.violation('shutdown incomplete after coalesced handshake', {'case': key, 'shutdown': sd})
+                continue
+            for a in range(m):
+                for b in range(m):
+                    if a == b:
+                        continue
+                    frames, rest = sim.frames(a, b)
+                    sent = collections.Counter(pc for pc, _ in frames)
+                    recv = collections.Counter(e[2] for e in sim.msglog[b] if e[0] == 'recv' and e[1] == a)
+                    if rest or sent != recv or any(v > 1 for v in sent.values()):
+                        ctx.violation('sent and received labels do not match one to one after coalesced handshake',
+                                      {'case': key, 'link': [a, b], 'sent': len(frames), 'received': sum(recv.values())})
+            for k, p in protos.items():
+                if p.buffers or len(p.bytes):
+                    ctx.violation('receive buffers not empty after shutdown (coalesced handshake)',
+                                  {'case': key, 'end': list(k), 'buffers': len(p.buffers), 'unparsed_bytes': len(p.bytes)})
+        finally:
+            with quiet():
+                sim.close()
+
+
 def handshake_stream(ctx, stats):
     """PRSS on: the client's first packet (pid + keys) of EVERY connection is cut at a chosen byte offset (all
     connections at once, one offset class per simulator); start must complete, and a PRSS-using program must give
@@ -889,6 +1015,7 @@ def run(ctx):
             finally:
                 sess.close()
     handshake_stream(ctx, stats)
+    coalesced_handshake_stream(ctx, stats, full=False)
     ctx.log('simulator: %s' % dict(stats))
     # model replay: the Coq label function on the logged call tree with the real hop table must reproduce the labels
     if ok and replay_items:
